@@ -62,6 +62,13 @@ func boundary() [][2]string {
 			"commit",
 			"restart",
 			"tx u1 hi call;h;both;6;6;-",
+			"tx u1 hi call;h;grab;1;2;-",
+			"probe u2 2500000 call;h;both;7;7;-",
+			"probe u2 1200000 call;h;grab;3;4;- call;a;set;7;7;-",
+			"commit",
+			"tx u1 hi call;h;grab;3;4;-",
+			"probe u0 299999999 call;h;grab;5;6;-",
+			"probe u0 1000000 add;c",
 			"commit",
 		)},
 		{"map-order-and-run-scripts", j(
@@ -167,6 +174,9 @@ func genMsg(r *kit.Rand, s *shadow) (string, bool) {
 		return fmt.Sprintf("call;%c;%s;%d;%d;%s", sl, fn, k, val(r), dep), fail
 	case x < 64: // the hub
 		k := r.Intn(8)
+		if r.Chance(25) {
+			return fmt.Sprintf("call;h;grab;%d;%d;-", k, val(r)), !s.dep['h']
+		}
 		if s.dep['h'] {
 			s.bKeys[k] = true
 		}
@@ -199,7 +209,37 @@ func genMsg(r *kit.Rand, s *shadow) (string, bool) {
 	}
 }
 
+// genProbe: a transaction cut off at a random gas limit (log-uniform between 10^6 and
+// ~1.6*10^7: most calls use 1.7 to 11 million) - it runs out of gas somewhere inside
+// the ante handler's tail, the VM, the realm finalization or the deposit settlement,
+// or reaches its last, always failing, message.  Never an effect.
+func genProbe(r *kit.Rand, s *shadow) string {
+	who := user(r)
+	if r.Chance(3) {
+		who = "x0"
+	}
+	gas := 1000000
+	for i := r.Intn(5); i > 0; i-- {
+		gas *= 2
+	}
+	gas += r.Intn(gas)
+	n := 1
+	if r.Chance(25) {
+		n = r.Range(2, 3)
+	}
+	trial := s.clone()
+	var msgs []string
+	for i := 0; i < n; i++ {
+		m, _ := genMsg(r, trial)
+		msgs = append(msgs, m)
+	}
+	return fmt.Sprintf("probe %s %d %s", who, gas, strings.Join(msgs, " "))
+}
+
 func genTx(r *kit.Rand, s *shadow) string {
+	if r.Chance(9) {
+		return genProbe(r, s)
+	}
 	who, gas := user(r), "hi"
 	if r.Chance(3) {
 		who = "x0"
@@ -277,6 +317,8 @@ func malformed(w *kit.Out, r *kit.Rand, n int) {
 		"tx u0 hi call;a;both;1;1;-", "tx u0 hi call;h;set;1;1;-", "tx u0 hi call;a;set;1;1", "tx u0 hi call;a;set;;1;-",
 		"tx u0 hi send;x0;5;u", "tx u0 hi send;u1;0;u", "tx u0 hi send;u1;1000001;u", "tx u0 hi send;u1;5;g", "tx u0 hi send;u1;05;u",
 		"tx u0 hi run;xx;1;1", "tx u0 hi run;ab;1", "tx u0 hi run;ab;9;1", "tx u0 hi add;a add;b add;c add;h add;a",
+		"probe", "probe u0 999999 add;a", "probe u0 300000000 add;a", "probe u0 hi add;a", "probe u3 1000000 add;a",
+		"probe u0 1000000", "probe u0 1000000 add;a add;b add;c add;h", "probe u0 01000000 add;a", "tx u0 hi call;a;grab;1;1;-",
 		"commit now", "restart 1", "begin", "COMMIT", "tx u0 hi ;", "tx u0 hi call;;;;;",
 	}
 	for i := 0; i < n; i++ {
